@@ -87,6 +87,10 @@ def unmangle(s):
 
     s = str(s)
 
+    if "." in s and s.strip("."):
+        # As in `mangle`, treat the parts of a dotted identifier separately.
+        return ".".join(unmangle(x) if x else "" for x in s.split("."))
+
     prefix = ""
     suffix = ""
     m = re.fullmatch(r"(_+)(.*?)(_*)", s, re.DOTALL)
